@@ -557,7 +557,7 @@ def _check(ctx, d):
                     )
 
 
-@CHECK.given("datasets", lambda tier: datasets(tier), quick=450, thorough=48000)
+@CHECK.given("datasets", lambda tier: datasets(tier), quick=400, thorough=24000)
 def datasets_sub(ctx, d):
     _check(ctx, d)
 
